@@ -20,7 +20,19 @@ type Job struct {
 	Weight float64
 	Hosts  []string
 	Waits  []time.Duration
+	Title  Label
+	Shards map[int]struct{}
 }
+
+// Label is a string-like text type: its UnmarshalText keeps any text
+// verbatim, surrounding whitespace included.
+type Label string
+
+// UnmarshalText implements encoding.TextUnmarshaler.
+func (l *Label) UnmarshalText(b []byte) error { *l = Label(b); return nil }
+
+// MarshalText implements encoding.TextMarshaler.
+func (l Label) MarshalText() ([]byte, error) { return []byte(l), nil }
 
 // TagSet is a named set type.
 type TagSet map[string]struct{}
@@ -211,6 +223,8 @@ func init() {
 	shape.RegisterBase("EmbPair", reflect.TypeOf(EmbPair{}))
 	shape.RegisterBase("EmbHidden", reflect.TypeOf(EmbHidden{}))
 	shape.RegisterBase("Node", reflect.TypeOf(Node{}))
+	shape.RegisterBase("Label", reflect.TypeOf(Label("")))
+	shape.RegisterBase("IntSet", reflect.TypeOf(map[int]struct{}{}))
 	shape.RegisterBase("EmbCommon", reflect.TypeOf(EmbCommon{}))
 	shape.RegisterBase("EmbCommonP", reflect.TypeOf(EmbCommonP{}))
 	shape.RegisterBase("EmbTop", reflect.TypeOf(EmbTop{}))
@@ -241,7 +255,7 @@ var staticWords = map[string][]string{
 	"EcFirst": {"ec", "first"}, "EcSecond": {"ec", "second"}, "EcInner": {"ec", "inner"}, "Deep": {"deep"}, "Tag": {"tag"},
 	"EtPort": {"et", "port"}, "EtName": {"et", "name"}, "EtEvery": {"et", "every"},
 	"EdFlag": {"ed", "flag"}, "EdInner": {"ed", "inner"}, "Level": {"level"}, "Set": {"set"},
-	"Name": {"name"}, "Every": {"every"}, "Tags": {"tags"}, "When": {"when"}, "Weight": {"weight"}, "Hosts": {"hosts"}, "Waits": {"waits"},
+	"Name": {"name"}, "Every": {"every"}, "Tags": {"tags"}, "When": {"when"}, "Weight": {"weight"}, "Hosts": {"hosts"}, "Waits": {"waits"}, "Title": {"title"}, "Shards": {"shards"},
 	"EmbMulti": {"emb", "multi"}, "EmbPair": {"emb", "pair"}, "EmbHidden": {"emb", "hidden"},
 	"EmLead": {"em", "lead"}, "EmFirst": {"em", "first"}, "EmMid": {"em", "mid"}, "EmLast": {"em", "last"}, "EmTail": {"em", "tail"},
 	"EpOne": {"ep", "one"}, "EpTwo": {"ep", "two"}, "EhNum": {"eh", "num"}, "EhTxt": {"eh", "txt"},
